@@ -105,9 +105,10 @@ class FakeCuda:
         return self.tid
 
     def to_device(self, a):
+        # device memory is separate from host memory: a transfer is a copy
         if isinstance(a, rnp.ndarray) and a.dtype == object:
-            return a.view(_Dev)
-        return rnp.asarray(a).view(_DevC)
+            return a.copy().view(_Dev)
+        return rnp.array(a, copy=True).view(_DevC)
 
     def device_array(self, n, dtype=None):
         a = rnp.empty(n, dtype=object).view(_Dev)
@@ -186,16 +187,18 @@ def all_encoded():
     return out
 
 
-def run(W, backend, fam, mode, x, y, starts, L, w, omega, order):
-    """call one backend function; symbolic world: clone on proxies; concrete world: the real function"""
+def run(W, backend, fam, mode, x, y, starts, L, w, omega, order, chunk=None):
+    """call one backend function; symbolic world: clone on proxies; concrete world: the real function.
+    chunk: value for the NumPy fallbacks' _chunk keyword (exercises their chunk loop at small K)"""
     st = rnp.asarray(starts, dtype=rnp.int64)
+    kw = {"_chunk": chunk} if (chunk and backend == "numpy") else {}
     if W.sym:
         G, GC, cuda = sym_modules()
         f = (GC if backend == "cuda" else G)[fname(backend, fam, mode)]
         args = [x] + ([y] if mode == "csd" else []) + [st, L, w, omega]
         if fam == "poly":
             args.append(G["_build_Q"](L, order))
-        res = f(*args)
+        res = f(*args, **kw)
         return [plain(v) for v in res]
     import speckit.core as core
     f = real_fn(backend, fam, mode)
@@ -203,7 +206,7 @@ def run(W, backend, fam, mode, x, y, starts, L, w, omega, order):
     args = [xs] + ([rnp.ascontiguousarray(y, dtype=rnp.float64)] if mode == "csd" else []) + [st, L, rnp.ascontiguousarray(w, dtype=rnp.float64), float(omega)]
     if fam == "poly":
         args.append(core._build_Q(L, order))
-    return [float(v) for v in f(*args)]
+    return [float(v) for v in f(*args, **kw)]
 
 
 # ----------------------------------------------------------------------------- reference
